@@ -111,6 +111,29 @@ def check_case(run, case):
                               observed=got[:8], expected=base[L][:8])
                 return
             run.ev('levels_generated')
+        # (d) two generators alive at the same time, sharing one cache and pulled alternately (what a status thread / a resumed level does)
+        inter = CountingOptimizer(max_length=case['opt_len'])
+        La, Lb = rng.sample(levels, 2) if len(levels) >= 2 else (levels[0], levels[0])
+        ma, mb = MarkovCracker(grammar, La, inter), MarkovCracker(grammar, Lb, inter)
+        oa, ob, da, db = [], [], False, False
+        for _ in range(2 * (len(base[La]) + len(base[Lb])) + 8):
+            if not da and (db or rng.random() < 0.5):
+                g = ma.next_guess()
+                da = g is None
+                if g is not None:
+                    oa.append(g)
+            elif not db:
+                g = mb.next_guess()
+                db = g is None
+                if g is not None:
+                    ob.append(g)
+            if da and db:
+                break
+        if oa != base[La] or ob != base[Lb]:
+            run.violation(f'levels {La} and {Lb} generated alternately through one shared cache differ from their stand-alone output', case,
+                          observed={'a': oa[:6], 'b': ob[:6]}, expected={'a': base[La][:6], 'b': base[Lb][:6]})
+            return
+        run.ev('interleaved_pairs')
         run.ev('cache_hits', hits['n'])
         run.case()
         nz = {L: len(v) for L, v in expected.items() if v}
@@ -120,7 +143,7 @@ def check_case(run, case):
         repo.drop_rules(name)
 
 def run(run, rng):
-    run.required_events = ['levels_generated', 'GUESS', 'cache_hits']
+    run.required_events = ['levels_generated', 'GUESS', 'cache_hits', 'interleaved_pairs']
     run.min_distinct = 20
     run.assumptions = ['well-formed models: each n-gram listed once, levels 0..10', 'models with more than 150000 strings up to the probed level are not decided',
                        'order of strings inside a level is not part of the property; equality across cache histories is checked on the exact sequence']
